@@ -16,8 +16,9 @@ EXPLANATION = ("Bounded symbolic execution of the real PAF generator on symbolic
                "animals inside / outside the image). Per feasible path (in-image mask x missing-point pattern x zero-length edges) z3 decides per cell: "
                "S1 the output equals the sum over kept animals of w*(dst-src)/|dst-src| with w = exp(-(dist^2)^2/2sigma^2) of the true clamped-projection "
                "distance (edges >= 1 px), in channel order e0.x,e0.y,e1.x,...; S2 never NaN/inf; S3 single animal: parallel, same orientation, |v|<=1; "
-               "S4 degenerate edges / filtered animals contribute exactly zero; K the in-image filter keeps every animal with a node strictly inside the "
-               "grid box and drops every animal wholly outside the image; L the reference distance is the true point-to-segment distance.")
+               "S4 degenerate edges / filtered animals contribute exactly zero; K the animals the code itself keeps (read off the tensor it hands to "
+               "get_edge_points) include every animal with a node strictly inside the grid box (K1) and no animal wholly outside the image that has a "
+               "drawable edge (K2), on square and non-square images; L the reference distance is the true point-to-segment distance.")
 ASSUMPTIONS = ["exact real arithmetic + IEEE special values; a missing keypoint has both coordinates NaN (one flag per point)",
                "exp: uninterpreted with axioms (S1, monotonicity) / fresh bounded real (S2, S3)",
                "S1's weight reference is asserted for edges of length >= 1 px: distance_to_edge clamps |edge|^2 to >= 1 (inherited guard), shorter edges get S2-S4 only",
@@ -35,7 +36,7 @@ def bounds(tier):
 def configs(tier, seed):
     out = []
     base = [
-        (1, 2, [[0, 1]], 4, 4, 2, 1.5), (1, 2, [[1, 0]], 4, 8, 2, 0.5), (1, 3, [[0, 1], [1, 2]], 4, 4, 2, 1.5), (2, 2, [[0, 1]], 4, 4, 2, 1.5),
+        (1, 2, [[0, 1]], 4, 4, 2, 1.5), (1, 2, [[1, 0]], 4, 8, 2, 1.5), (1, 3, [[0, 1], [1, 2]], 4, 4, 2, 1.5), (2, 2, [[0, 1]], 4, 4, 2, 1.5),
         (1, 3, [[0, 2], [0, 1]], 8, 8, 4, 1.5), (1, 2, [[0, 1]], 3, 3, 1, 0.5),
     ]
     if tier == "thorough":
@@ -115,16 +116,24 @@ def _run_main(cfg):
         taps.append(x)
         return du.gaussian_pdf(x, sigma)
     em.gaussian_pdf = tapped_gaussian_pdf
+    kept_taps = []
+    real_get_edge_points = em.get_edge_points
+
+    def tapped_get_edge_points(instances, edge_inds):  # observation only: the animals that survived the code's own in-image filter
+        kept_taps.append(instances)
+        return real_get_edge_points(instances, edge_inds)
+    em.get_edge_points = tapped_get_edge_points
 
     def path():
         taps.clear()
+        kept_taps.clear()
         with T.SymMode():
             inst = _sym_instances(T, A, N)
             out = generate_pafs(inst, (H, W), sigma, stride, torch.tensor(edges), True)
-        return inst, out, list(taps), [(a, v) for k, (a, v) in CTX.memo.items() if k[0] == "sqrt"]
+        return inst, out, list(taps), [(a, v) for k, (a, v) in CTX.memo.items() if k[0] == "sqrt"], list(kept_taps)
 
     two_s2 = Fraction(2 * sigma ** 2)
-    for inst, out, dist_taps, sqrt_defs in ex.run(path):
+    for inst, out, dist_taps, sqrt_defs, kept_obs in ex.run(path):
         rep.paths += 1
         rep.nontrivial_paths += 1
         kv = inst.values()
@@ -153,17 +162,57 @@ def _run_main(cfg):
                 nodes_out.append(Or(x.nan, rcmp("<", x.v, 0), rcmp(">", x.v, W), rcmp("<", y.v, 0), rcmp(">", y.v, H)))
             strictly_in.append(Or(*nodes_in))
             wholly_out.append(And(*nodes_out))
-        kept = []
+        # the code's own decision on this path, read off the tensor it hands to get_edge_points (rows are the animals' own terms)
+        kept = [False] * A
+        ok_obs = len(kept_obs) == 1 and len(kept_obs[0].shape) == 3 and tuple(kept_obs[0].shape[1:]) == (N, 2)
+        if ok_obs:
+            rows = kept_obs[0].values()
+            for r_ in range(kept_obs[0].shape[0]):
+                row = rows[r_ * N * 2:(r_ + 1) * N * 2]
+                hit = [a for a in range(A) if all(row[k] is kv[a * N * 2 + k] for k in range(N * 2))]
+                if len(hit) == 1 and not kept[hit[0]]:
+                    kept[hit[0]] = True
+                else:
+                    ok_obs = False
+        if not ok_obs:
+            rep.inconclusive_item("K-filter", "could not read the kept animals off the tensor handed to get_edge_points")
+        from symx.explorer import model_env, DefaultEnv
         for a in range(A):
-            can_in = ex.query([xf.zb(strictly_in[a])]).status
-            can_notin = ex.query([xf.zb(Not(strictly_in[a]))]).status
-            if "unknown" in (can_in, can_notin):
-                rep.inconclusive_item("K-filter", "unknown while classifying the path")
-            kept.append(can_in == "sat" and can_notin == "unsat")
-            rep.record("K-filter-is-decided-by-strictly-inside-node", "unsat" if (can_in == "sat") != (can_notin == "sat") else "sat")
-            if (can_in == "sat") == (can_notin == "sat"):
-                rep.violation("K-filter-is-decided-by-strictly-inside-node", "K-filter", "a path mixes animals with and without a node strictly inside the grid box",
-                              extract(None, __import__("symx.explorer", fromlist=["x"]).DefaultEnv({})))
+            if kept[a]:
+                continue
+            else:
+                v = ex.query([xf.zb(strictly_in[a])])
+                rep.record("K1-animals-with-a-node-strictly-inside-the-grid-box-are-kept", "unsat" if v.status == "unsat" else v.status)
+                if v.status == "sat":
+                    # prefer an observable counterexample: some edge of the dropped animal is drawable (both endpoints present, >= 1 px) and near the grid
+                    drawable = []
+                    for (s_, d_) in edges:
+                        (sx, sy), (dx, dy) = K(a, s_), K(a, d_)
+                        ex_, ey_ = xf.rsub(dx.v, sx.v), xf.rsub(dy.v, sy.v)
+                        drawable.append(And(Not(sx.nan), Not(dx.nan), rcmp(">=", xf.radd(xf.rmul(ex_, ex_), xf.rmul(ey_, ey_)), 1)))
+                    near = [xf.zb(Or(x_.nan, And(rcmp(">=", x_.v, -1), rcmp("<=", x_.v, max(H, W) + 1)))) for n in range(N) for x_ in K(a, n)]
+                    v_obs = ex.query([xf.zb(strictly_in[a]), xf.zb(Or(*drawable))] + near)
+                    if v_obs.status == "sat":
+                        v = v_obs
+                    rep.violation("K1-animals-with-a-node-strictly-inside-the-grid-box-are-kept", "K1-inside", "an animal with a node strictly inside the grid box is dropped",
+                                  extract(v.model, DefaultEnv(model_env(v.model))))
+                elif v.status != "unsat":
+                    rep.inconclusive_item("K1-animals-with-a-node-strictly-inside-the-grid-box-are-kept", "unknown")
+        # S obligations are claimed for frames whose animals are all in one of the two classes (the border strip between grid box and image
+        # edge is outside the claim): guard them with the per-animal class membership the path does not already imply
+        claim_terms = []
+        in_claim = True
+        for a in range(A):
+            c_ = Or(strictly_in[a], wholly_out[a])
+            if ex.query([xf.zb(c_)]).status == "unsat":
+                in_claim = False
+                break
+            if ex.query([xf.zb(Not(c_))]).status != "unsat":
+                claim_terms.append(c_)
+        if not in_claim:
+            rep.sample({"kept": kept, "skipped": "path lies wholly in the border strip", "path_condition": ex.path_summary(3, 70)})
+            continue
+        claim = And(*claim_terms) if claim_terms else True
         rep.witness("path-with-kept-animal", any(kept))
         rep.witness("path-with-dropped-animal", not all(kept))
         # ---- reference per kept animal / edge
@@ -224,6 +273,21 @@ def _run_main(cfg):
                             ref_terms[key] = xf.radd(ref_terms.get(key, Fraction(0)), R(w) * (R(ec) / r))
         rep.witness("path-with-missing-endpoint", any_missing)
         rep.witness("path-with-zero-length-edge", any_zero)
+        # K2 (after the edges are classified): a kept animal with at least one drawable edge cannot be wholly outside the image
+        for a in range(A):
+            if kept[a] and any(valid_flags.get((a, e), False) for e in range(E)):
+                v = ex.query([xf.zb(wholly_out[a])])
+                rep.record("K2-animals-wholly-outside-the-image-are-dropped", "unsat" if v.status == "unsat" else v.status)
+                if v.status == "sat":
+                    # prefer a counterexample close to the grid (far animals underflow to an exactly-zero float32 weight and would not show on replay)
+                    near = [xf.zb(And(Or(x_.nan, And(rcmp(">=", x_.v, -1), rcmp("<=", x_.v, max(H, W) + 1))))) for n in range(N) for x_ in K(a, n)]
+                    v_near = ex.query([xf.zb(wholly_out[a])] + near)
+                    if v_near.status == "sat":
+                        v = v_near
+                    rep.violation("K2-animals-wholly-outside-the-image-are-dropped", "K2-outside", "an animal with every node outside [0,W]x[0,H] contributes",
+                                  extract(v.model, DefaultEnv(model_env(v.model))))
+                elif v.status != "unsat":
+                    rep.inconclusive_item("K2-animals-wholly-outside-the-image-are-dropped", "unknown")
         if uf:
             goals = []
             for e in range(E):
@@ -231,7 +295,7 @@ def _run_main(cfg):
                     for i in range(gh):
                         for j in range(gw):
                             v = cell(2 * e + comp, i, j)
-                            goals.append(xf.Implies(And(*guards), And(v.fin(), rcmp("==", v.v, ref_terms.get((e, comp, i, j), Fraction(0))))))
+                            goals.append(xf.Implies(And(claim, *guards), And(v.fin(), rcmp("==", v.v, ref_terms.get((e, comp, i, j), Fraction(0))))))
             discharge_all(ex, rep, "S1-equals-sum-of-weighted-unit-vectors[edges>=1px]", goals, abstract=abstract,
                           on_sat=lambda m, env: (f"S1-spec:{sig}", "a PAF cell differs from sum_a w*(dst-src)/|dst-src| in channel order e.x,e.y", extract(m, env)))
         else:
@@ -240,7 +304,7 @@ def _run_main(cfg):
             # S4: every (kept-animal, edge) degenerate or no kept animal => that edge's channels are exactly zero
             for e in range(E):
                 if not any(valid_flags.get((a, e), False) for a in range(A)):
-                    goals = [And(cell(2 * e + c, i, j).fin(), rcmp("==", cell(2 * e + c, i, j).v, 0)) for c in (0, 1) for i in range(gh) for j in range(gw)]
+                    goals = [xf.Implies(claim, And(cell(2 * e + c, i, j).fin(), rcmp("==", cell(2 * e + c, i, j).v, 0))) for c in (0, 1) for i in range(gh) for j in range(gw)]
                     discharge_all(ex, rep, "S4-degenerate-edges-and-dropped-animals-contribute-zero", goals,
                                   on_sat=lambda m, env: (f"S4-zero:{sig}", "an edge with a missing endpoint / zero length / dropped animal has a non-zero field", extract(m, env)))
             # S3: exactly one contributing animal for this edge: direction and magnitude
@@ -255,18 +319,10 @@ def _run_main(cfg):
                 for i in range(gh):
                     for j in range(gw):
                         px, py = cell(2 * e, i, j).v, cell(2 * e + 1, i, j).v
-                        goals.append(And(rcmp("==", xf.rmul(px, ey_), xf.rmul(py, ex_)), rcmp(">=", xf.radd(xf.rmul(px, ex_), xf.rmul(py, ey_)), 0),
-                                         rcmp("<=", xf.radd(xf.rmul(px, px), xf.rmul(py, py)), 1)))
+                        goals.append(xf.Implies(claim, And(rcmp("==", xf.rmul(px, ey_), xf.rmul(py, ex_)), rcmp(">=", xf.radd(xf.rmul(px, ex_), xf.rmul(py, ey_)), 0),
+                                                        rcmp("<=", xf.radd(xf.rmul(px, px), xf.rmul(py, py)), 1))))
                 discharge_all(ex, rep, "S3-parallel-same-orientation-magnitude<=1", goals,
                               on_sat=lambda m, env: (f"S3-direction:{sig}", "a PAF vector is not a [0,1]-weighted unit vector from source to destination", extract(m, env)))
-        # K2: a kept animal cannot be wholly outside the image; a dropped animal has no node strictly inside (by classification above)
-        for a in range(A):
-            if kept[a]:
-                v = ex.query([xf.zb(wholly_out[a])])
-                rep.record("K2-animals-wholly-outside-the-image-are-dropped", "unsat" if v.status == "unsat" else v.status)
-                if v.status == "sat":
-                    from symx.explorer import model_env, DefaultEnv
-                    rep.violation("K2-animals-wholly-outside-the-image-are-dropped", "K2-outside", "an animal with every node outside [0,W]x[0,H] contributes", extract(v.model, DefaultEnv(model_env(v.model))))
         rep.sample({"kept": kept, "path_condition": ex.path_summary(3, 70)})
     rep.infeasible_paths = ex.infeasible
     if not uf:
@@ -383,6 +439,12 @@ def replay(cfg, inputs, obligation):
                     w = np.exp(-(d2 ** 2) / (2 * sigma ** 2))
                     ref[2 * e, i, j] += w * ev[0] / np.sqrt(l2)
                     ref[2 * e + 1, i, j] += w * ev[1] / np.sqrt(l2)
+    if obligation.startswith(("K2", "S4")):
+        # "vanish" is exact: a channel no kept, non-degenerate edge contributes to must be exactly zero (a far animal's weight may be tiny but not 0)
+        for ch in range(2 * E):
+            if not ref[ch].any() and out[ch].any():
+                k = np.unravel_index(np.argmax(np.abs(out[ch])), out[ch].shape)
+                return True, f"channel {ch} cell {k}: got {out[ch][k]} where nothing may contribute, instances {P.tolist()}"
     if obligation.startswith("S3") or short:
         # direction-only oracle (single contributing animal per edge)
         for e, (s_, d_) in enumerate(edges):
